@@ -39,27 +39,27 @@ Qed.
 
 (* ---- the truncated form ---------------------------------------------------- *)
 
-Definition opt_list (ar : list rr) : list rr :=
-  match first_opt ar with Some o => [RROpt o] | None => [] end.
+Lemma min_opt_len o : opt_len (min_opt o) = 11.
+Proof. rewrite opt_len_spec. reflexivity. Qed.
 
-(* header (TC set), the questions, the first OPT record *)
-Definition trunc_form (m : msg) : msg :=
-  mkMsg (m_id m) (set_tc (m_b2 m)) (m_b3 m) (m_qs m) [] [] (opt_list (m_ar m)).
+Lemma opt_len_ge o : 11 <= opt_len o.
+Proof. rewrite opt_len_spec. lia. Qed.
 
-Lemma trunc_form_len m :
-  mlen (trunc_form m) = 12 + qs_len (m_qs m)
-                        + match first_opt (m_ar m) with Some o => opt_len o | None => 0 end.
-Proof.
-  rewrite mlen_spec. unfold trunc_form, opt_list. cbn [m_qs m_an m_ns m_ar concat].
-  destruct (first_opt (m_ar m)); cbn [map concat wire_rr]; rewrite ?app_nil_r, ?len_nil;
-    unfold opt_len; lia.
-Qed.
+(* what is left of the additional section, three ways: the response's OPT when
+   header + questions + OPT fit the limit, else the OPT without options when
+   that fits, else nothing *)
+Definition trunc_ar (max : N) (m : msg) : list rr :=
+  match first_opt (m_ar m) with
+  | None => []
+  | Some o =>
+      if 12 + qs_len (m_qs m) + opt_len o <=? max then [RROpt o]
+      else if 12 + qs_len (m_qs m) + 11 <=? max then [RROpt (min_opt o)]
+      else []
+  end.
 
-Lemma trunc_form_le m : mlen (trunc_form m) <= mlen m.
-Proof.
-  rewrite trunc_form_len, mlen_spec.
-  destruct (first_opt (m_ar m)) eqn:E; [apply first_opt_len in E|]; lia.
-Qed.
+(* header (TC set), the questions, the OPT as far as it fits *)
+Definition trunc_form (max : N) (m : msg) : msg :=
+  mkMsg (m_id m) (set_tc (m_b2 m)) (m_b3 m) (m_qs m) [] [] (trunc_ar max m).
 
 Lemma mlen_base id b2 b3 qs : mlen (mkMsg id b2 b3 qs [] [] []) = 12 + qs_len qs.
 Proof. rewrite mlen_spec. cbn [m_qs m_an m_ns m_ar map concat]. rewrite len_nil. lia. Qed.
@@ -71,25 +71,70 @@ Proof.
   unfold opt_len. lia.
 Qed.
 
-(* rebuild never needs its fallbacks and never fails on a message that exists
-   (at most 65535 octets) *)
-Lemma rebuild_spec m : mlen m <= 65535 ->
-  rebuild (mkMsg (m_id m) (set_tc (m_b2 m)) (m_b3 m) (m_qs m) (m_an m) (m_ns m) (m_ar m))
-  = Ok (trunc_form m).
+Lemma trunc_ar_cases max m :
+  (trunc_ar max m = [] /\ mlen (trunc_form max m) = 12 + qs_len (m_qs m)) \/
+  (exists o, first_opt (m_ar m) = Some o /\ trunc_ar max m = [RROpt o] /\
+             mlen (trunc_form max m) = 12 + qs_len (m_qs m) + opt_len o /\
+             12 + qs_len (m_qs m) + opt_len o <= max) \/
+  (exists o, first_opt (m_ar m) = Some o /\ trunc_ar max m = [RROpt (min_opt o)] /\
+             mlen (trunc_form max m) = 12 + qs_len (m_qs m) + 11 /\
+             max < 12 + qs_len (m_qs m) + opt_len o /\ 12 + qs_len (m_qs m) + 11 <= max).
 Proof.
-  intros H. pose proof (trunc_form_le m) as Hle. rewrite trunc_form_len in Hle.
-  unfold rebuild, trunc_form, opt_list. cbv zeta. cbn [m_id m_b2 m_b3 m_qs m_ar].
-  rewrite mlen_base.
-  destruct (N.ltb_spec 65535 (12 + qs_len (m_qs m))) as [L|L].
-  - destruct (first_opt (m_ar m)); lia.
-  - destruct (first_opt (m_ar m)) as [o|] eqn:E; [|reflexivity].
-    rewrite mlen_with_opt.
-    destruct (N.ltb_spec 65535 (12 + qs_len (m_qs m) + opt_len o)); [lia|reflexivity].
+  unfold trunc_form, trunc_ar. destruct (first_opt (m_ar m)) as [o|] eqn:E.
+  - destruct (N.leb_spec (12 + qs_len (m_qs m) + opt_len o) max) as [A|A].
+    + right; left. exists o. rewrite mlen_with_opt. auto.
+    + destruct (N.leb_spec (12 + qs_len (m_qs m) + 11) max) as [B|B].
+      * right; right. exists o. rewrite mlen_with_opt, min_opt_len. auto.
+      * left. rewrite mlen_base. auto.
+  - left. rewrite mlen_base. auto.
+Qed.
+
+Lemma trunc_form_le max m : mlen (trunc_form max m) <= mlen m.
+Proof.
+  rewrite (mlen_spec m).
+  destruct (trunc_ar_cases max m) as [(_ & L)|[(o & E & _ & L & _)|(o & E & _ & L & _)]]; rewrite L;
+    try (apply first_opt_len in E; pose proof (opt_len_ge o)); lia.
+Qed.
+
+(* the only way the truncated form can exceed the limit: header + questions alone do *)
+Lemma trunc_form_fits max m : 12 + qs_len (m_qs m) <= max -> mlen (trunc_form max m) <= max.
+Proof.
+  intros H. destruct (trunc_ar_cases max m) as [(_ & L)|[(o & _ & _ & L & F)|(o & _ & _ & L & _ & F)]]; lia.
+Qed.
+
+Lemma trunc_form_over max m : max < 12 + qs_len (m_qs m) ->
+  trunc_ar max m = [] /\ mlen (trunc_form max m) = 12 + qs_len (m_qs m).
+Proof.
+  intros H. destruct (trunc_ar_cases max m) as [A|[(o & _ & _ & _ & F)|(o & _ & _ & _ & _ & F)]]; [exact A|lia|lia].
+Qed.
+
+(* rebuild never fails on a message that exists (at most 65535 octets) and
+   yields the three-way truncated form *)
+Lemma rebuild_spec max m : mlen m <= 65535 ->
+  rebuild (rebuild_limit max)
+    (mkMsg (m_id m) (set_tc (m_b2 m)) (m_b3 m) (m_qs m) (m_an m) (m_ns m) (m_ar m))
+  = Ok (trunc_form max m).
+Proof.
+  intros H. rewrite (mlen_spec m) in H.
+  unfold rebuild, rebuild_limit, trunc_form, trunc_ar, push_fails, limit_hit.
+  cbv [trunc_rebuild_has_push_limit trunc_rebuild_limit_slack push_limit_cmp_is_ge]. cbv zeta.
+  cbn [m_id m_b2 m_b3 m_qs m_ar]. rewrite mlen_base.
+  destruct (N.ltb_spec 65535 (12 + qs_len (m_qs m))) as [L|L]; [lia|].
+  destruct (first_opt (m_ar m)) as [o|] eqn:E; [|reflexivity].
+  apply first_opt_len in E. pose proof (opt_len_ge o) as G.
+  rewrite !mlen_with_opt, min_opt_len.
+  destruct (N.ltb_spec 65535 (12 + qs_len (m_qs m) + opt_len o)); [lia|].
+  destruct (N.ltb_spec 65535 (12 + qs_len (m_qs m) + 11)); [lia|]. cbn [orb].
+  destruct (N.leb_spec (max + 1) (12 + qs_len (m_qs m) + opt_len o));
+    destruct (N.leb_spec (12 + qs_len (m_qs m) + opt_len o) max); try lia; [|reflexivity].
+  destruct (N.leb_spec (max + 1) (12 + qs_len (m_qs m) + 11));
+    destruct (N.leb_spec (12 + qs_len (m_qs m) + 11) max); try lia; reflexivity.
 Qed.
 
 Lemma truncate_spec fx has_opt hint m : mlen m <= 65535 ->
   truncate_gen fx true has_opt hint m =
-  Ok (if trunc_max_gen fx has_opt hint <? mlen m then trunc_form m else m).
+  Ok (if trunc_max_gen fx has_opt hint <? mlen m
+      then trunc_form (trunc_max_gen fx has_opt hint) m else m).
 Proof.
   intros H. unfold truncate_gen, over_limit. cbv [trunc_cmp_is_gt].
   destruct (N.ltb_spec (trunc_max_gen fx has_opt hint) (mlen m)); [|reflexivity].
@@ -103,7 +148,8 @@ Proof. reflexivity. Qed.
 
 (* postprocess does not change lengths or sections *)
 Lemma mandatory_post_shape fx rq hint m : mlen m <= 65535 ->
-  let m1 := if trunc_max_gen fx (is_some (rq_client rq)) hint <? mlen m then trunc_form m else m in
+  let max := trunc_max_gen fx (is_some (rq_client rq)) hint in
+  let m1 := if max <? mlen m then trunc_form max m else m in
   let r := mandatory_post_gen fx true rq hint m in
   m_id r = rq_id rq /\ m_b3 r = m_b3 m1 /\ m_qs r = m_qs m /\ m_an r = m_an m1 /\
   m_ns r = m_ns m1 /\ m_ar r = m_ar m1 /\ mlen r = mlen m1 /\
@@ -120,13 +166,15 @@ Proof.
   - rewrite N.clearbit_neq by discriminate. rewrite N.setbit_neq by discriminate. reflexivity.
 Qed.
 
-(* not truncated: within the limit.  truncated: exactly header + questions + OPT *)
+(* not truncated: within the limit.  truncated: header + questions + what
+   trunc_ar leaves of the OPT (see trunc_ar_cases for the three ways) *)
 Lemma udp_size_cases fx rq hint m : mlen m <= 65535 ->
   let max := trunc_max_gen fx (is_some (rq_client rq)) hint in
   let r := mandatory_post_gen fx true rq hint m in
-  (mlen m <= max /\ mlen r = mlen m /\ tc_set (m_b2 r) = tc_set (m_b2 m)) \/
-  (max < mlen m /\ mlen r = mlen (trunc_form m) /\ tc_set (m_b2 r) = true /\
-   m_an r = [] /\ m_ns r = [] /\ m_ar r = opt_list (m_ar m)).
+  (mlen m <= max /\ mlen r = mlen m /\ tc_set (m_b2 r) = tc_set (m_b2 m) /\
+   m_an r = m_an m /\ m_ns r = m_ns m /\ m_ar r = m_ar m) \/
+  (max < mlen m /\ mlen r = mlen (trunc_form max m) /\ tc_set (m_b2 r) = true /\
+   m_an r = [] /\ m_ns r = [] /\ m_ar r = trunc_ar max m).
 Proof.
   intros H. cbv zeta.
   destruct (mandatory_post_shape fx rq hint m H) as (_ & _ & _ & Han & Hns & Har & Hl & Htc).
@@ -136,11 +184,21 @@ Proof.
   - left. repeat split; assumption.
 Qed.
 
+(* the response fits the limit unless header + questions alone exceed it; in that
+   case it is exactly header + questions, TC set, no OPT *)
 Lemma udp_size_bound_gen fx rq hint m : mlen m <= 65535 ->
-  mlen (trunc_form m) <= trunc_max_gen fx (is_some (rq_client rq)) hint ->
-  mlen (mandatory_post_gen fx true rq hint m) <= trunc_max_gen fx (is_some (rq_client rq)) hint.
+  let max := trunc_max_gen fx (is_some (rq_client rq)) hint in
+  let r := mandatory_post_gen fx true rq hint m in
+  (12 + qs_len (m_qs m) <= max -> mlen r <= max) /\
+  (max < 12 + qs_len (m_qs m) ->
+     mlen r = 12 + qs_len (m_qs m) /\ tc_set (m_b2 r) = true /\ m_an r = [] /\ m_ns r = [] /\ m_ar r = []).
 Proof.
-  intros H Ht. destruct (udp_size_cases fx rq hint m H) as [(A & B & _)|(A & B & _)]; lia.
+  intros H. cbv zeta.
+  destruct (udp_size_cases fx rq hint m H) as [(A & B & _)|(A & B & T & Han & Hns & Har)].
+  - split; [lia|]. intros L. rewrite mlen_spec in A. lia.
+  - split.
+    + intros L. rewrite B. apply trunc_form_fits. exact L.
+    + intros L. destruct (trunc_form_over _ m L) as (E1 & E2). rewrite B, Har, E1, E2. auto.
 Qed.
 
 (* TC is set exactly when the response was over the limit (or the service set it) *)
@@ -148,7 +206,7 @@ Lemma tc_iff_gen fx rq hint m : mlen m <= 65535 ->
   tc_set (m_b2 (mandatory_post_gen fx true rq hint m)) = true <->
   (trunc_max_gen fx (is_some (rq_client rq)) hint < mlen m \/ tc_set (m_b2 m) = true).
 Proof.
-  intros H. destruct (udp_size_cases fx rq hint m H) as [(A & _ & T)|(A & _ & T & _)]; rewrite T.
+  intros H. destruct (udp_size_cases fx rq hint m H) as [(A & _ & T & _)|(A & _ & T & _)]; rewrite T.
   - split; [intros; right; assumption|intros [L|L]; [lia|assumption]].
   - split; [intros; left; assumption|reflexivity].
 Qed.
@@ -159,12 +217,11 @@ Lemma dropped_implies_tc fx rq hint m : mlen m <= 65535 ->
   (m_an r <> m_an m \/ m_ns r <> m_ns m \/ m_ar r <> m_ar m) -> tc_set (m_b2 r) = true.
 Proof.
   intros H. cbv zeta. intros D.
-  destruct (mandatory_post_shape fx rq hint m H) as (_ & _ & _ & Han & Hns & Har & _ & _).
-  destruct (udp_size_cases fx rq hint m H) as [(A & _ & _)|(_ & _ & T & _)]; [|exact T].
-  apply N.ltb_ge in A. rewrite A in Han, Hns, Har. tauto.
+  destruct (udp_size_cases fx rq hint m H) as [(_ & _ & _ & A1 & A2 & A3)|(_ & _ & T & _)]; [|exact T].
+  rewrite A1, A2, A3 in D. tauto.
 Qed.
 
-(* ---- a request without OPT: the truncated form always fits 512 ---------------- *)
+(* ---- one well-formed question: the bound holds without proviso ---------------- *)
 
 Definition wf_q (q : question) : Prop :=
   valid_abs (q_name q) /\ q_type q < 65536 /\ q_class q < 65536.
@@ -173,12 +230,6 @@ Lemma wire_q_len q : wf_q q -> len (wire_q q) <= 259.
 Proof.
   intros ((_ & Hl) & _ & _). unfold wire_q. rewrite !len_app. unfold len at 1.
   rewrite wire_abs_length. cbn. lia.
-Qed.
-
-Lemma edns_post_no_opt m : first_opt (m_ar (edns_post false m)) = None.
-Proof.
-  unfold edns_post. cbn [negb m_ar]. induction (m_ar m) as [|r t IH]; [reflexivity|].
-  cbn [filter]. destruct r; cbn [is_opt negb]; [exact IH|exact IH].
 Qed.
 
 Lemma edns_post_qs b m : m_qs (edns_post b m) = m_qs m.
@@ -204,40 +255,57 @@ Proof.
   - rewrite mlen_spec in *. cbn [m_qs m_an m_ns m_ar]. pose proof (filter_len (m_ar m)). lia.
 Qed.
 
+Lemma trunc_max_ge fx b h : hint_ok h -> 512 <= trunc_max_gen fx b h.
+Proof.
+  intros H. unfold trunc_max_gen. cbv [min_resp_len]. destruct (fx && negb b); [lia|].
+  destruct h; simpl in H; lia.
+Qed.
+
 Lemma hint_ok_after client hint h : hint_ok hint -> hint_after_edns client hint = Ok h -> hint_ok h.
 Proof.
   intros Hk. rewrite hint_after_edns_spec. intros E; inversion E; subst.
   destruct client as [c|]; [|exact Hk]. destruct hint as [x|]; simpl in *; lia.
 Qed.
 
-(* one well-formed question, no OPT in the request: the response never exceeds
-   the limit truncate uses, whatever the service produced *)
-Lemma udp_size_bound_no_opt fx rq cfg m r q :
-  rq_client rq = None -> m_qs m = [q] -> wf_q q -> hint_ok cfg -> mlen m <= 65535 ->
+(* the whole UDP path: the datagram never exceeds the negotiated limit when the
+   response carries one well-formed question, with or without EDNS, whatever the
+   service produced (large OPT included) *)
+Lemma udp_size_bound_one_question fx rq cfg m r q :
+  m_qs m = [q] -> wf_q q -> hint_ok cfg -> mlen m <= 65535 ->
   udp_response_gen fx rq cfg m = Ok r ->
-  mlen r <= trunc_max_gen fx false cfg.
+  exists lim, udp_limit_gen fx (rq_client rq) cfg = Ok lim /\ mlen r <= lim.
 Proof.
-  intros Hc Hq Hwf Hk Hl. unfold udp_response_gen. rewrite Hc. cbn [hint_after_edns bind is_some].
-  intros E; inversion E; subst r; clear E.
-  set (m' := edns_post false m).
+  intros Hq Hwf Hk Hl. unfold udp_response_gen, udp_limit_gen.
+  destruct (hint_after_edns (rq_client rq) cfg) as [h| | |] eqn:E; try discriminate.
+  cbn [bind]. intros R; inversion R; subst r; clear R.
+  eexists; split; [reflexivity|].
+  set (m' := edns_post (is_some (rq_client rq)) m).
   assert (Hl' : mlen m' <= 65535) by (apply edns_post_len; exact Hl).
-  pose proof (udp_size_bound_gen fx rq cfg m' Hl') as B. rewrite Hc in B. cbn [is_some] in B.
-  apply B. clear B.
-  rewrite trunc_form_len. subst m'. rewrite edns_post_no_opt, edns_post_qs, Hq.
-  unfold qs_len. cbn [map concat]. rewrite app_nil_r. pose proof (wire_q_len q Hwf).
-  unfold trunc_max_gen. cbv [min_resp_len].
-  destruct (fx && negb false); [lia|]. destruct cfg as [h|]; simpl in Hk; lia.
+  destruct (udp_size_bound_gen fx rq h m' Hl') as (B & _). apply B.
+  subst m'. rewrite edns_post_qs, Hq. unfold qs_len. cbn [map concat]. rewrite app_nil_r.
+  pose proof (wire_q_len q Hwf). pose proof (trunc_max_ge fx (is_some (rq_client rq)) h (hint_ok_after _ _ _ Hk E)). lia.
 Qed.
 
-(* with an OPT the truncated form is NOT bounded: a witness with a large OPT *)
+(* the fallback is live: the response that used to leave as 636 octets against
+   a limit of 512 now keeps an OPT without options *)
 Definition big_opt_request : request := mk_request 4352 0 [3] 1 (Some 512).
 Definition big_opt_response : msg := mk_response big_opt_request 128 0 2 100 0 11 (Some (1232, 604)).
 
-Lemma udp_size_bound_refuted :
+Example big_opt_now_minimal :
+  exists r, udp_response big_opt_request (Some 1232) big_opt_response = Ok r /\
+    mlen r = 32 /\ tc_set (m_b2 r) = true /\ m_ar r = [RROpt (mkOpt 1232 0 [])].
+Proof. eexists. split; [vm_compute; reflexivity|]. repeat split; vm_compute; reflexivity. Qed.
+
+(* what remains: header + questions alone over the limit (a response echoing
+   very many questions); nothing can be dropped from it *)
+Definition many_q_request : request := mkReq 7 0 (repeat (mkQ [[97]] 1 1) 100) None.
+Definition many_q_response : msg := mkMsg 7 128 1 (repeat (mkQ [[97]] 1 1) 100) [] [] [].
+
+Lemma udp_size_bound_proviso_needed :
   exists rq cfg m r, mlen m <= 65535 /\ udp_response rq cfg m = Ok r /\
-    udp_limit (rq_client rq) cfg = Ok 512 /\ tc_set (m_b2 r) = true /\ 512 < mlen r.
+    udp_limit (rq_client rq) cfg = Ok 512 /\ tc_set (m_b2 r) = true /\ mlen r = 712.
 Proof.
-  exists big_opt_request, (Some 1232), big_opt_response.
+  exists many_q_request, None, many_q_response.
   eexists. split; [vm_compute; discriminate|]. split; [vm_compute; reflexivity|].
   split; [reflexivity|]. split; vm_compute; reflexivity.
 Qed.
@@ -318,21 +386,35 @@ Definition wf_resp (m : msg) : Prop :=
   Forall wf_q (m_qs m) /\ cnt (m_qs m) < 65536 /\
   (forall o, first_opt (m_ar m) = Some o -> wf_opt o).
 
-(* TC set by truncation: the datagram is header + questions (+ OPT) and parses back *)
+Lemma first_opt_in_wf (m : msg) o :
+  (forall o', first_opt (m_ar m) = Some o' -> wf_opt o') -> first_opt (m_ar m) = Some o ->
+  wf_opt o /\ wf_opt (min_opt o).
+Proof.
+  intros Ho E. pose proof (Ho o E) as (A & B & C). split; [repeat split; assumption|].
+  unfold wf_opt, min_opt. cbn [o_size o_ttl o_data].
+  split; [exact A|]. split; [clear -B; lia|reflexivity].
+Qed.
+
+(* TC set by truncation: the datagram is header + questions (+ OPT, possibly
+   without its options) and parses back *)
 Lemma truncated_wellformed_gen fx rq hint m : mlen m <= 65535 -> rq_id rq < 65536 -> wf_resp m ->
-  trunc_max_gen fx (is_some (rq_client rq)) hint < mlen m ->
+  let max := trunc_max_gen fx (is_some (rq_client rq)) hint in
+  max < mlen m ->
   let r := mandatory_post_gen fx true rq hint m in
-  tc_set (m_b2 r) = true /\ m_an r = [] /\ m_ns r = [] /\ m_ar r = opt_list (m_ar m) /\
+  tc_set (m_b2 r) = true /\ m_an r = [] /\ m_ns r = [] /\ m_ar r = trunc_ar max m /\
   m_qs r = m_qs m /\ parse_min (wire_msg r) = Some r.
 Proof.
-  intros H Hid (Hq & Hc & Ho) L. cbv zeta.
+  intros H Hid (Hq & Hc & Ho). cbv zeta. intros L.
   destruct (udp_size_cases fx rq hint m H) as [(A & _)|(_ & _ & T & Han & Hns & Har)]; [lia|].
   destruct (mandatory_post_shape fx rq hint m H) as (Hi & _ & Hqs & _).
   repeat split; try assumption.
   apply parse_min_wire; [|reflexivity].
   unfold wf_min. rewrite Hi, Hqs, Han, Hns, Har. repeat split; try assumption.
-  unfold opt_list. destruct (first_opt (m_ar m)) as [o|] eqn:E; [right|left; reflexivity].
-  exists o. split; [reflexivity|]. apply Ho. reflexivity.
+  destruct (trunc_ar_cases (trunc_max_gen fx (is_some (rq_client rq)) hint) m)
+    as [(E & _)|[(o & F & E & _)|(o & F & E & _)]]; rewrite E.
+  - left; reflexivity.
+  - right. exists o. split; [reflexivity|]. apply (first_opt_in_wf m o Ho F).
+  - right. exists (min_opt o). split; [reflexivity|]. apply (first_opt_in_wf m o Ho F).
 Qed.
 
 Example parse_min_ex :
